@@ -899,6 +899,9 @@ def replay(chk, path):
         if r['ast']:
             a = vf.impl([{'cmd': 'ast', 'src': d['source']}])[0]
             print('front_complete, leaves:', vf.model([f'(c07 {a["ok"]} {a["tstrs"]} {Lst(tos, S)})'])[0])
+            if '-d' in (d.get('args') or []):
+                print('library parse (multi)  :', str(vf.impl([{'cmd': 'parse', 'src': d['source'], 'multi_file': True, 'target_os': [], 'crate_name': 'mycrate'}])[0])[:600])
+                print('model parse_file_multi :', str(vf.model([f'(c07_multi {a["ok"]} {a["tstrs"]} {S("mycrate")})'])[0])[:600])
             if d.get('lang'):
                 lk = d['lang']
                 print('model  gen_src        :', str(back.model_canon(vf.model([f'(gen_src {LANG[lk][1]} {back.cfg_sx(LANG[lk][4])} {a["ok"]} {a["tstrs"]} {Lst(tos, S)})'])[0]))[:300])
